@@ -52,6 +52,8 @@ fn gen(rng: &mut Rng, tier: Tier) -> Value {
   };
   let mut cfg = GenCfg::hostile(depth);
   cfg.wild_maps = false;
+  // every constructible tree: also replacement ranges with end < start
+  cfg.reversed_ops = true;
   cfg.max_text = if rng.chance(1, 2) { 10 } else { 30 };
   let mut pool = new_pool(rng, &cfg);
   let a = gen_tree(rng, &cfg, &mut pool, 0, false);
@@ -290,7 +292,7 @@ fn clone_then_mutate(sa: &Spec, obs: &mut Obs) {
           crate::model::splice::splice_text(&inner.model_text(), &all)
         };
         let head = crate::spec::Op { start: 0, end: 0, content: "HEAD+".into(), name: None, enforce: 0, plain_api: false, observe_before: false };
-        if !inner.is_all_utf8() {
+        if !inner.is_all_utf8() || sa.has_reversed_op() {
           return;
         }
         if mutate_clone {
